@@ -12,6 +12,7 @@ EXPLANATION = (
     "checksum, creator and salt (taint closure), the classic one on (code_id, instance count); id allocation is "
     "max-key + 1 (checked) and duplicate_code copies the looked-up entry. Collision-freeness of SHA-256 is not decided "
     "(irrelevant to uniqueness thanks to the duplicate guard)."
+    " Success results of store_code_with_id and register_contract are bounded as well as their writes: every non-Err result is dominated by the guarded save (q.successes_outside)."
 )
 TRUSTED = ["rustc MIR construction", "cwmt-facts driver", "vlib (provenance, dominators)", "std BTreeMap semantics",
            "cosmwasm-std instantiate2_address / Api"]
